@@ -174,7 +174,7 @@ def kernel_idempotent(x, y, integral_value, integral_method, dx, alpha, s, resul
 contract(WINDOWS, params=dict(x=Seq(Real, kind='arraylike'), y=Seq(Real, kind='arraylike'), dx=Real,
                               integral_values=Seq(Real, kind='arraylike'), fixed_points_indices_in_x=Seq(Int, kind='arraylike'),
                               integral_method=Str, alpha=Real, s=NoneT),
-         returns=Seq(Real), lemmas=['SUM_CONG'])
+         returns=Seq(Real))
 
 
 def windows_ok(x, f):
@@ -238,6 +238,15 @@ def windows_h_shift(x, y, start, end, integral_method, last_result):
                      start, 0, end - 1 - start)
 
 
+@hint(WINDOWS, loop=1, when='end')
+def windows_h_prefix(x, y, y__head, start, integral_method):
+    """the rule terms left of the current window are unchanged, hence every finished window keeps its integral
+    (lemma SUM_CONG_RANGE on the prefix [0, start))"""
+    return SUM_CONG_RANGE(seq_of(len(x) - 1, lambda k: rule_term(x, y, k, integral_method)),
+                          seq_of(len(x) - 1, lambda k: rule_term(x, y__head, k, integral_method)),
+                          0, start)
+
+
 @ensures(WINDOWS)
 def windows_integrals(x, y, dx, integral_values, fixed_points_indices_in_x, integral_method, alpha, s, result):
     """C01: the integral between each pair of consecutive fixed points equals its target"""
@@ -254,3 +263,126 @@ def windows_frame(x, y, dx, integral_values, fixed_points_indices_in_x, integral
                            result[p] == y[p]))
             and forall(range(len(fixed_points_indices_in_x)), lambda j:
                        result[fixed_points_indices_in_x[j]] == y[fixed_points_indices_in_x[j]]))
+
+
+# ============================================================================ resolution (top level)
+
+contract(TOP, params=dict(x=Seq(Real), y=Seq(Real), x_ref=Seq(Real),
+                          y_ref=Seq(Real), fixed_points_in_x=NoneT, fixed_points_indices_in_x=NoneT,
+                          fixed_points_finding_strategy=Str, target_function_integral_method=Str,
+                          reference_function_integral_method=Str, alpha=Real, s=NoneT),
+         returns=Seq(Real), generator='gen_top')
+
+
+def known_strategy(s):
+    return s == 'closest' or s == 'lower' or s == 'higher'
+
+
+def known_rule(m):
+    return m == 'trapezoid' or m == 'rectangle'
+
+
+def fixed_idx(x, x_ref, j, strategy):
+    """index in x of the sample selected for the j-th reference position"""
+    return nearest(x, x_ref[j], strategy)
+
+
+@requires(TOP)
+def top_pre(x, y, x_ref, y_ref, fixed_points_in_x, fixed_points_indices_in_x, fixed_points_finding_strategy,
+            target_function_integral_method, reference_function_integral_method, alpha, s):
+    return (len(x) >= 2 and len(y) == len(x) and strictly_increasing(x) and alpha > 0
+            and len(x_ref) >= 1 and len(y_ref) == len(x_ref) and strictly_increasing(x_ref)
+            # the property's quantifier: the selected fixed points are distinct and leave at least one interior sample
+            and implies(known_strategy(fixed_points_finding_strategy), forall(range(len(x_ref) - 1), lambda j:
+                        fixed_idx(x, x_ref, j + 1, fixed_points_finding_strategy)
+                        - fixed_idx(x, x_ref, j, fixed_points_finding_strategy) >= 2)))
+
+
+@raises(TOP, 'ValueError')
+def top_rejected(x, y, x_ref, y_ref, fixed_points_in_x, fixed_points_indices_in_x, fixed_points_finding_strategy,
+                 target_function_integral_method, reference_function_integral_method, alpha, s):
+    """unknown search strategy or integration rule (the target rule only matters once there is a window)"""
+    return (not known_strategy(fixed_points_finding_strategy) or not known_rule(reference_function_integral_method)
+            or (not known_rule(target_function_integral_method) and len(x_ref) >= 2))
+
+
+@hint(TOP, before='fixed_points_in_x = np.unique(fixed_points_in_x)')
+def top_h_selected(x, x_ref, fixed_points_finding_strategy, fixed_points_in_x, last_result):
+    """the search result is *the* index the specification determines (uniqueness of the definitional spec)"""
+    return (len(last_result) == len(x_ref)
+            and forall(range(len(x_ref)), lambda j: last_result[j] == fixed_idx(x, x_ref, j, fixed_points_finding_strategy)))
+
+
+@hint(TOP, before='fixed_points_in_x = np.unique(fixed_points_in_x)')
+def top_h_increasing(x, x_ref, fixed_points_in_x, last_result):
+    """distinct selected samples, at least one interior sample between neighbours (from the precondition)"""
+    return (forall(range(len(x_ref)), lambda j: 0 <= last_result[j] and last_result[j] < len(x))
+            and forall(range(len(x_ref) - 1), lambda j: last_result[j + 1] - last_result[j] >= 2)
+            and strictly_increasing(last_result)
+            and len(fixed_points_in_x) == len(x_ref)
+            and forall(range(len(x_ref)), lambda j: fixed_points_in_x[j] == x[last_result[j]])
+            and strictly_increasing(fixed_points_in_x))
+
+
+@hint(TOP, before='if len(fixed_points_in_x) >= len(x) + 1 / 2')
+def top_h_resolved(x, x_ref, fixed_points_in_x, fixed_points_indices_in_x, fixed_points_in_x_ref_indices, last_result):
+    """after np.unique / np.where(np.isin(..)): the fixed indices are exactly the selected indices"""
+    return (len(fixed_points_in_x) == len(x_ref) and len(fixed_points_indices_in_x) == len(x_ref)
+            and forall(range(len(x_ref)), lambda j: fixed_points_indices_in_x[j] == last_result[j])
+            and len(fixed_points_in_x_ref_indices) == len(x_ref)
+            and forall(range(len(x_ref)), lambda j: fixed_points_in_x_ref_indices[j] == j))
+
+
+@ensures(TOP)
+def top_integrals(x, y, x_ref, y_ref, fixed_points_in_x, fixed_points_indices_in_x, fixed_points_finding_strategy,
+                  target_function_integral_method, reference_function_integral_method, alpha, s, result):
+    """C01: between consecutive fixed points the result integrates (target rule) to the reference integral (reference rule)
+    over the corresponding reference interval"""
+    return (is_ndarray(result) and len(result) == len(y)
+            and forall(range(len(x_ref) - 1), lambda j:
+                       sum_range(fixed_idx(x, x_ref, j, fixed_points_finding_strategy),
+                                 fixed_idx(x, x_ref, j + 1, fixed_points_finding_strategy),
+                                 lambda i: rule_term(x, result, i, target_function_integral_method))
+                       == rule_term(x_ref, y_ref, j, reference_function_integral_method)))
+
+
+@ensures(TOP)
+def top_frame(x, y, x_ref, y_ref, fixed_points_in_x, fixed_points_indices_in_x, fixed_points_finding_strategy,
+              target_function_integral_method, reference_function_integral_method, alpha, s, result):
+    """C03: samples outside the span of the fixed points, and the fixed points themselves, are unchanged"""
+    return (forall(range(len(y)), lambda p:
+                   implies(p < fixed_idx(x, x_ref, 0, fixed_points_finding_strategy)
+                           or p > fixed_idx(x, x_ref, len(x_ref) - 1, fixed_points_finding_strategy), result[p] == y[p]))
+            and forall(range(len(x_ref)), lambda j: result[fixed_idx(x, x_ref, j, fixed_points_finding_strategy)]
+                       == y[fixed_idx(x, x_ref, j, fixed_points_finding_strategy)]))
+
+
+# ------------------------------------------------------------------ run-time generators (bounded stand-in only)
+
+def gen_top(rnd):
+    import numpy as np
+    m = rnd.randint(1, 5)
+    n = rnd.randint(3, 6)
+    xr = [float(rnd.randint(-3, 3))]
+    for _ in range(m - 1):
+        xr.append(xr[-1] + rnd.choice([1.0, 1.5, 2.0, 3.0]))
+    xs = []
+    for k in range(m - 1):
+        seg = np.linspace(xr[k], xr[k + 1], n + 1)[:-1]
+        xs.extend(seg.tolist())
+    xs.append(xr[-1])
+    if m == 1:
+        xs = [xr[0] - 1.0, xr[0], xr[0] + 0.5]
+    xs = np.array(xs)
+    if rnd.random() < 0.5:           # non-uniform / off-grid reference positions
+        xs = xs + np.concatenate([[0.0], np.cumsum([rnd.choice([0.0, 0.01, 0.02]) for _ in range(len(xs) - 1)])])
+    if rnd.random() < 0.3:
+        xr = [v + rnd.choice([-0.05, 0.03, 0.0]) for v in xr]
+    ys = np.array([float(rnd.randint(-6, 6)) / 2 for _ in xs])
+    yr = np.array([float(rnd.randint(-6, 6)) / 2 for _ in xr])
+    return dict(x=xs if rnd.random() < 0.8 else xs.tolist(), y=ys, x_ref=np.array(xr), y_ref=yr, fixed_points_in_x=None,
+                fixed_points_indices_in_x=None,
+                fixed_points_finding_strategy=rnd.choice(['closest', 'closest', 'lower', 'higher', 'nope']),
+                target_function_integral_method=rnd.choice(['trapezoid', 'rectangle', 'trapezoid', 'simpson']),
+                reference_function_integral_method=rnd.choice(['rectangle', 'trapezoid', 'rectangle', 'bad']),
+                alpha=rnd.choice([0.5, 1.0, 2.0, 3.0]), s=None)
